@@ -1,69 +1,114 @@
-import XPathV.Model.Api
-import XPathV.Lemmas.Facts
+import XPathV.Lemmas.C17Base
+import XPathV.Lemmas.ParserTokens
 /-!
-# C17 — truncated or ill-formed expressions are rejected by Compile (partial)
+# C17 — truncated or ill-formed expressions are rejected by Compile (property-level theorems)
 
-Local rejection lemmas, one per expected-token site of the parser model, plus the structural
-facts about the builder's tables.  The global truncation theorem (every cut inside a construct of
-an accepted expression is rejected) is stated and not yet closed.
+`Lemmas/C17Base.lean` (same namespace) holds the local rejection lemmas and the T0 theorems over
+the builder's tables; `Lemmas/ParserTokens.lean` the consumed-token theorem for the parser model
+(mutual induction over all fifteen parser functions, every fuel, every configuration): what a
+successful parser call consumes is a word of a token grammar `G`, whose words are non-empty, end in
+an end token and are balanced.  The theorems below are its corollaries for `parse`.
+
+`TextToks text ts`: the scanner turns `text` into the token stream `ts` (ending in `.eof`).
+A rejection `∃ e, parse fuel cfg text = .error e` holds for **every** fuel and configuration.
+
+Not covered at token level: a cut after an operator *word* (`and or div mod` are name tokens;
+whether they are operators depends on the position) — covered by `operator_then_end_rejected` at
+the tier loop; the passage from "the text ends with the character `[`" to "the stream ends with
+the token `[`" (true unless the character is inside a string literal) is not proved.
 -/
 namespace XPathV.Theorems.C17
-open XPathV XPathV.Model XPathV.Facts
+open XPathV XPathV.Model XPathV.Facts XPathV.Lemmas.ParserTokens
 
-/-- the full statement for truncation -/
-def C17TruncationStatement : Prop :=
-  ∀ (cfg : PCfg) (text : List Char) (a : Ast), parse (fuelFor text) cfg text = .ok a →
-    ∀ cut, cut < text.length → (∃ c, text[cut - 1]? = some c ∧ (c == '[' || c == '(' || c == ',' || c == '/')) →
-      ∃ e, parse (fuelFor (text.take cut)) cfg (text.take cut) = .error e
+/-- **every accepted text** has a token stream that is non-empty, ends in an end token (name, `*`,
+`)`, `]`, `.`, `..`, string, number — or a `/` that is a complete root path) and is balanced in
+`()` and `[]` -/
+theorem accepted_streams {fuel : Nat} {cfg : PCfg} {text : List Char} {a : Ast}
+    (h : parse fuel cfg text = .ok a) :
+    ∃ used, TextToks text (used ++ [.eof]) ∧ used ≠ [] ∧ EndOK used ∧ Bal used :=
+  accepted_ends_in_end_token h
 
-/-- T0: the parser requires the end of the input; unknown functions and axes are errors -/
-theorem structural_rejections : Generated.parseRequiresEOF = true ∧ Generated.funcDefaultErrors = true ∧
-    Generated.axisDefaultErrors = true := by decide
+/-- **cut after an operator symbol, an opening bracket or parenthesis, a comma, `//`, `@`, `$`, `!`
+or an axis specifier**: rejected -/
+theorem cut_after_opener_rejected (fuel : Nat) (cfg : PCfg) {text : List Char} {pre : List Tok} {t : Tok}
+    (ht : TextToks text (pre ++ [t, .eof]))
+    (hmem : t ∈ [Tok.lbracket, .lparen, .comma, .at, .dollar, .plus, .minus, .eq, .ne, .lt, .le, .gt, .ge,
+      .union, .slashslash, .bang, .axe]) :
+    ∃ e, parse fuel cfg text = .error e :=
+  reject_trailing fuel cfg ht hmem
 
-/-- T0 (F3): required arguments: the minimum arity the builder enforces per function -/
-theorem min_arities : (Generated.funcTable.map (fun e => (e.names.headD "", e.minArgs))) =
-    [("lower-case", 1), ("starts-with", 2), ("ends-with", 2), ("contains", 2), ("matches", 2), ("substring", 2),
-     ("substring-before", 2), ("string-length", 1), ("normalize-space", 0), ("replace", 3), ("translate", 3), ("not", 1),
-     ("name", 0), ("true", 0), ("last", 0), ("position", 0), ("boolean", 0), ("count", 1), ("sum", 1), ("ceiling", 1),
-     ("concat", 2), ("reverse", 1), ("string-join", 2)] := by decide
+/-- **cut after a slash inside a path**: the stream ends with `t /` where `t` closes a step or a
+primary expression (`)`, `]`, `.`, `..`, string, number) -/
+theorem cut_after_slash_rejected (fuel : Nat) (cfg : PCfg) {text : List Char} {pre : List Tok} {t : Tok}
+    (ht : TextToks text (pre ++ [t, .slash, .eof]))
+    (hmem : t ∈ [Tok.rparen, .rbracket, .dot, .dotdot, .string, .number]) :
+    ∃ e, parse fuel cfg text = .error e :=
+  reject_trailing_slash_hard fuel cfg ht hmem
 
-/-- `skipItem` on a different token is an error (every "expected token" site goes through it) -/
-theorem skipItem_mismatch (st : PState) (t : Tok) (h : st.s.typ ≠ t) : st.skipItem t = .error .invalidToken := by
-  simp [PState.skipItem, h]
+/-- … and after a name or `*`, unless what precedes them is itself a complete expression (then the
+name is an operator word or `*` the multiplication, and `/` its right operand: `a and /`, `a * /`
+are valid XPath) -/
+theorem cut_after_slash_rejected_name (fuel : Nat) (cfg : PCfg) {text : List Char} {pre : List Tok} {t : Tok}
+    (ht : TextToks text (pre ++ [t, .slash, .eof])) (h1 : t ≠ .minus) (h2 : ¬ G .expr pre) :
+    ∃ e, parse fuel cfg text = .error e :=
+  reject_trailing_slash_operand fuel cfg ht h1 h2
 
-/-- an operand position holding `)`, `]`, `,` or the end of input is rejected by `parseNodeTest` -/
-theorem operand_missing (cfg : PCfg) (inp : Ast) (axis : String) (mt : NType) (st : PState)
-    (h : st.s.typ = .eof ∨ st.s.typ = .rparen ∨ st.s.typ = .rbracket ∨ st.s.typ = .comma) :
-    parseNodeTest cfg inp axis mt st = .error .notNodeSet := by
-  rcases h with h | h | h | h <;> simp [parseNodeTest, h]
+/-- **unbalanced brackets**: rejected -/
+theorem unbalanced_rejected (fuel : Nat) (cfg : PCfg) {text : List Char} {ts : List Tok}
+    (ht : TextToks text (ts ++ [.eof])) (h : ¬ Bal ts) : ∃ e, parse fuel cfg text = .error e :=
+  reject_unbalanced fuel cfg ht h
 
-/-- an unclosed string literal is a scanner error -/
-theorem unclosed_string (q : Char) (body : List Char) (hq : q ∉ body) : scanStringAux q body = none := by
-  induction body with
-  | nil => rfl
-  | cons c t ih =>
-    simp only [List.mem_cons, not_or] at hq
-    have hne : (c == q) = false := by
-      simp only [beq_eq_false_iff_ne, ne_eq]; exact fun h => hq.1 h.symm
-    simp [scanStringAux, hne, ih hq.2]
+/-- `Bal` is what it should be: per bracket kind every prefix has at least as many opening as
+closing tokens, and the totals are equal -/
+theorem balanced_iff (u : List Tok) : Bal u ↔
+    (∀ k, (u.take k).count .rparen ≤ (u.take k).count .lparen) ∧ u.count .lparen = u.count .rparen ∧
+    (∀ k, (u.take k).count .rbracket ≤ (u.take k).count .lbracket) ∧ u.count .lbracket = u.count .rbracket :=
+  Bal_iff u
 
-/-- a predicate that is not closed by `]` is rejected -/
-theorem unclosed_predicate (f : Nat) (cfg : PCfg) (st st1 st2 : PState) (a : Ast)
-    (h1 : st.skipItem .lbracket = .ok st1) (h2 : parseExpression f cfg st1 = .ok (a, st2)) (h3 : st2.s.typ ≠ .rbracket) :
-    parsePredicate (f+1) cfg st = .error .invalidToken := by
-  simp [parsePredicate, h1, h2, bind, Except.bind, skipItem_mismatch st2 .rbracket h3]
+/-- **deleting a closing (or opening) bracket or parenthesis of an accepted expression**: any text
+whose token stream is the accepted one minus one bracket token is rejected -/
+theorem bracket_deleted_rejected {fuel : Nat} {cfg : PCfg} {text : List Char} {a : Ast} {p q : List Tok} {t : Tok}
+    (hok : parse fuel cfg text = .ok a) (hts : TextToks text (p ++ t :: q ++ [.eof])) (ht : isBr t = true)
+    (fuel' : Nat) (cfg' : PCfg) {text' : List Char} (hts' : TextToks text' (p ++ q ++ [.eof])) :
+    ∃ e, parse fuel' cfg' text' = .error e :=
+  reject_bracket_erased hok hts ht fuel' cfg' hts'
 
-/-- an unknown function name is rejected by the builder -/
-theorem unknown_function (rx : RegexOk) (lim : Nat) (a b : Bool) (name pfx : String) (args : Ast) (fl : Flags) (st : BState)
-    (hlim : st.depth + 1 ≤ lim) (hn : fnArity name = none) :
-    build rx lim a b (.call name pfx args) fl st = .error (.unknownFunction name) := by
-  simp [build, build.enter, hn]
-  omega
+/-- **unclosed quote** anywhere in the text: the scanner error propagates -/
+theorem unclosed_quote_rejected (fuel : Nat) (cfg : PCfg) {text : List Char} {s s1 : Scan} {u : List Tok}
+    (hs : Scan.init text = .ok s) (hu : Steps s u s1) (hne : s1.typ ≠ .eof)
+    (hq : s1.skipSpace.curr = '"' ∨ s1.skipSpace.curr = '\'')
+    (h : scanStringAux s1.skipSpace.curr s1.skipSpace.rest = none) :
+    ∃ e, parse fuel cfg text = .error e :=
+  reject_unclosed_quote fuel cfg hs hu hne hq h
 
-/-- text left over after a complete expression is rejected -/
-theorem trailing_text_rejected (fuel : Nat) (cfg : PCfg) (text : List Char) (s : Scan) (a : Ast) (st : PState)
-    (hs : Scan.init text = .ok s) (hp : parseExpression fuel cfg { s := s, d := 0 } = .ok (a, st)) (he : st.s.typ ≠ .eof) :
-    parse fuel cfg text = .error .invalidToken := by
-  simp [parse, hs, hp, bind, Except.bind, he]
+/-- **malformed token** (invalid character, malformed qualified name, bad number) anywhere in the
+part of the text the parser reads: the scanner error propagates -/
+theorem scan_error_rejected (fuel : Nat) (cfg : PCfg) {text : List Char} {s s1 : Scan} {u : List Tok} {e0 : ScanErr}
+    (hs : Scan.init text = .ok s) (hu : Steps s u s1) (hne : s1.typ ≠ .eof) (herr : s1.nextItem = .error e0) :
+    ∃ e, parse fuel cfg text = .error e :=
+  reject_scan_error fuel cfg hs hu hne herr
+
+/-- **cut after an operator, word or symbol**: when the tier loop has matched an operator at the
+current token and the text ends right after it, the loop fails -/
+theorem operator_then_end_rejected (f : Nat) (cfg : PCfg) {ops : List String} (rest : List Stage) (opnd : Ast)
+    {st st1 : PState} {op : String} (hfind : ops.find? (tokMatches st.s) = some op)
+    (h1 : st.next = .ok st1) (he : st1.s.typ = .eof) :
+    ∃ e, tierLoop f cfg ops rest opnd st = .error e :=
+  tierLoop_operator_then_eof f cfg rest opnd hfind h1 he
+
+/-- the character-level statement first written for this property was false (`/a` cut after the
+slash is the accepted root path `/`); kept as a record -/
+theorem first_truncation_statement_was_false : ¬ C17TruncationStatement :=
+  C17TruncationStatement_false
+
+/-- non-vacuity, for every fuel and configuration: `a[`, `a/`, `f(1,`, `a[b`, `concat('a'`,
+`'abc` are rejected by the theorems above -/
+theorem examples_rejected (fuel : Nat) (cfg : PCfg) :
+    (∃ e, parse fuel cfg "a[".toList = .error e) ∧ (∃ e, parse fuel cfg "a/".toList = .error e) ∧
+    (∃ e, parse fuel cfg "f(1,".toList = .error e) ∧ (∃ e, parse fuel cfg "a[b".toList = .error e) ∧
+    (∃ e, parse fuel cfg "concat('a'".toList = .error e) ∧
+    parse fuel cfg "'abc".toList = .error (.scan .unclosedString) :=
+  ⟨ex_cut_lbracket fuel cfg, ex_cut_slash fuel cfg, ex_cut_comma fuel cfg, ex_unclosed_bracket fuel cfg,
+   ex_unclosed_paren fuel cfg, ex_unclosed_quote fuel cfg⟩
 
 end XPathV.Theorems.C17
